@@ -13,7 +13,7 @@ ASSUMPTIONS = [
     "rows of pack2 output beyond the packed length are unspecified and not compared",
     "numpy (own bundled OpenBLAS) is the reference linear algebra",
 ]
-REQUIRED_COUNTERS = ["max_step.sigma-None-explicit", "max_step.beyond-float-range", "scale.trailing-rows.multicolumn-s-block", "max_step.block-exactly-on-boundary.not-last", "kernel.scale", "kernel.scale2", "kernel.pack", "kernel.pack2", "kernel.unpack",
+REQUIRED_COUNTERS = ["snrm2-sdot.huge-values-in-unreferenced-triangle", "max_step.sigma-None-explicit", "max_step.beyond-float-range", "scale.trailing-rows.multicolumn-s-block", "max_step.block-exactly-on-boundary.not-last", "kernel.scale", "kernel.scale2", "kernel.pack", "kernel.pack2", "kernel.unpack",
                      "kernel.sdot", "kernel.snrm2", "kernel.sgemv", "kernel.trisc", "kernel.triusc",
                      "kernel.symm", "kernel.sprod", "kernel.ssqr", "kernel.sinv", "kernel.max_step",
                      "kernel.jdot", "kernel.jnrm2", "impl.C", "impl.py"]
@@ -329,11 +329,21 @@ def run(ctx):
 
         elif kern in ("sdot", "snrm2"):
             x = cone.random_vector(rng, dims, symmetric=False)
+            if any(m_ >= 2 for m_ in dims.s) and rng.random() < 0.15:
+                # the strict upper triangles of 's' blocks are not referenced - whatever they hold (stale 1e170, 1e300)
+                hugev = rng.choice([1e170, -1e300, 1e200])
+                for kind_, st_, m_ in dims.blocks():
+                    if kind_ == "s":
+                        for j_ in range(m_):
+                            for i_ in range(j_):
+                                x[st_ + j_ * m_ + i_] = hugev
+                ctx.count("snrm2-sdot.huge-values-in-unreferenced-triangle")
             y = cone.random_vector(rng, dims, symmetric=False) if kern == "sdot" else x
             want = cone.sdot(x, y, dims)
             if kern == "snrm2":
                 want = math.sqrt(want)
-            sc = max(1.0, float(np.linalg.norm(x) * np.linalg.norm(y))) if kern == "sdot" else max(1.0, float(np.linalg.norm(x)))
+            xl_, yl_ = x[lm], y[lm]
+            sc = max(1.0, float(np.linalg.norm(xl_) * np.linalg.norm(yl_))) if kern == "sdot" else max(1.0, float(np.linalg.norm(xl_)))
             def call(mod):
                 a = to_matrix(x) if N else matrix(0.0, (0, 1))
                 b = to_matrix(y) if N else matrix(0.0, (0, 1))
